@@ -529,7 +529,7 @@ func init() {
 		r.Assume(
 			"type equality in the laws ('up to Equals') is the code's own Type.Equals (mutual Is), as in the statement",
 			"only types produced by the constructors/TypeSum are states; hand-built unions (nested, duplicate TypeIDs, single alternative) are outside the contract",
-			"NonNullable: judged on every state except Null itself (documented to return Null) and Any (NULL is part of Any, removing it is not expressible); for a state t: NULL must not be Is/Maybe NonNullable(t) at top level, every non-NULL top-level alternative of t must be Is NonNullable(t), NonNullable(t) must be Is t, and t without a top-level NULL alternative must be returned Equal; nested nullability (e.g. [Int|NULL]) is left alone",
+			"NonNullable: judged on every state and on every rotation of a union state's alternatives (hand-built unions do not keep NULL first) except Null itself (documented to return Null) and Any (NULL is part of Any, removing it is not expressible); for a state t: NULL must not be Is/Maybe NonNullable(t) at top level, every non-NULL top-level alternative of t must be Is NonNullable(t), NonNullable(t) must be Is t, and t without a top-level NULL alternative must be returned Equal; nested nullability (e.g. [Int|NULL]) is left alone",
 			"TypeIntersection: only containment is judged (nil is always accepted); completeness is not in the statement",
 			"value/type conformance: object field names are not compared (values carry no names); a tuple value shorter than a NULL-padded tuple type is skipped as undefined; values containing a list with two differently shaped object-containing elements are skipped (Value.Type merges object types by field name, which values do not have)",
 		)
@@ -563,8 +563,17 @@ func init() {
 					return fmt.Sprintf("TypeSum(t,t) = %s is not Equal to t = %s", c10Key(s), key), c10Case{Law: "idempotent", A: key, Got: c10Key(s), Want: key}
 				})
 			}
-			// NonNullable
-			if t.TypeID != octosql.TypeIDNull && t.TypeID != octosql.TypeIDAny {
+			// NonNullable: on the state itself and, for a union, on every rotation of its alternatives (the typechecker
+			// also builds unions by hand, e.g. {object} | NULL in logical.TypecheckPossiblyNullableStruct, so NULL is
+			// not always the first alternative)
+			for vi, t := range c10Orderings(t) {
+				if t.TypeID == octosql.TypeIDNull || t.TypeID == octosql.TypeIDAny {
+					continue
+				}
+				key := key
+				if vi > 0 {
+					key = c10KeyOrdered(t) + " (alternatives in this order)"
+				}
 				nn, pan := c10SafeNonNullable(t)
 				if pan != nil {
 					l.hit("C10/panic@NonNullable", func() (string, c10Case) {
